@@ -7,7 +7,7 @@
    The remaining unwinding code is covered by exhaustive single-fault ENUMERATION (harness/c16_harness.c) — that is
    exploration, not a theorem; its traces are judged by the extracted `trace_ok`, proved sound and complete below. *)
 From Coq Require Import List NArith Bool String.
-From Wbxml Require Import Model.Alloc Model.AllocClasses Gen.AllocSites Proofs.AllocProofs.
+From Wbxml Require Import Model.Alloc Model.AllocClasses Gen.AllocSites Proofs.AllocProofs Proofs.AllocInduction.
 Import ListNotations.
 Local Open Scope N_scope.
 
@@ -64,6 +64,17 @@ Theorem C16_list_destroy_upto3_partial :
    clean (run l [1; 2; 3; 4; 5; 6; 7; 8; 9]) /\ h_live (run l [1; 2; 3; 4; 5; 6; 7; 8; 9]) = []).
 Proof. exact list_destroy_upto3. Qed.
 Print Assumptions C16_list_destroy_upto3_partial.
+
+(* ALL lengths, ARBITRARY heap: a list of buffers whose blocks are distinct and live is released completely, once,
+   and nothing else is touched *)
+Theorem C16_list_destroy_all : forall (l : wlist buffer) h,
+  clean h ->
+  NoDup (elts_release_order (l_elts l) ++ [l_blk l]) -> incl (elts_release_order (l_elts l) ++ [l_blk l]) (h_live h) ->
+  clean (list_destroy buf_item_destroy h (Some l)) /\
+  forall x, In x (h_live (list_destroy buf_item_destroy h (Some l))) <->
+            In x (h_live h) /\ ~ In x (elts_release_order (l_elts l) ++ [l_blk l]).
+Proof. exact list_destroy_all. Qed.
+Print Assumptions C16_list_destroy_all.
 
 (* ---- tags, attribute names, attributes ---- *)
 Theorem C16_named_create_literal : creates named_blocks [] (fun o => named_create_literal (heap0 o)).
@@ -128,6 +139,24 @@ Theorem C16_parse_element_attrs_fixed_upto3_partial : forall fails n, (n <= 3)%n
   end.
 Proof. exact parse_element_attrs_fixed_upto3. Qed.
 Print Assumptions C16_parse_element_attrs_fixed_upto3_partial.
+
+(* ANY number of attributes, ARBITRARY heap (oracle included: it is a field of the heap), by induction: no violation;
+   on error nothing of the element / table / attributes remains and the rest of the heap is untouched; on success the
+   element, the table and the n new attributes are live and distinct and the rest of the heap is untouched *)
+Theorem C16_parse_element_attrs_fixed_all : forall n h element table entries,
+  clean h -> fresh h -> (table = None -> entries = []) ->
+  NoDup ((element :: []) ++ entries ++ otable table) -> incl ((element :: []) ++ entries ++ otable table) (h_live h) ->
+  let '(h', r, st) := attrs_loop true n h element table entries in
+  clean h' /\
+  match st with
+  | ERR => r = None /\ forall x, In x (h_live h') <-> outside h ((element :: []) ++ entries ++ otable table) x
+  | OK => let owned' := (element :: []) ++ match r with Some (t, es) => es ++ [t] | None => [] end in
+          NoDup owned' /\ incl owned' (h_live h') /\
+          (match r with Some (t, es) => List.length es = (List.length entries + n)%nat | None => n = 0%nat /\ table = None end) /\
+          forall x, outside h' owned' x <-> outside h ((element :: []) ++ entries ++ otable table) x
+  end.
+Proof. exact parse_element_attrs_fixed_all. Qed.
+Print Assumptions C16_parse_element_attrs_fixed_all.
 
 (* ---- parse_attr_start, LITERAL branch: OK returned after a failed create, the NULL name is then dereferenced ---- *)
 Theorem C16_attr_start_literal_refuted :
